@@ -13,3 +13,16 @@ Theorem C24_options_do_not_change_the_code : forall f ops,
   code_of (render f ops) = code_of (render default_flags ops).
 Proof. exact options_do_not_change_the_code. Qed.
 Print Assumptions C24_options_do_not_change_the_code.
+
+(* chunk level: every chunk handed to the writer (a generated line, a table cell, a piece of user code
+   spanning several lines with its string literals) reaches the file verbatim and unsplit under every
+   option; indentation precedes whole chunks only *)
+Theorem C24_options_keep_every_chunk_verbatim : forall f ops,
+  chunks_of (prender f ops) = chunks_of (prender default_flags ops).
+Proof. exact options_keep_every_chunk_verbatim. Qed.
+Print Assumptions C24_options_keep_every_chunk_verbatim.
+
+Theorem C24_plain_line_bytes : forall f n body,
+  line_bytes f {| p_indent := ind_of f n; p_chunks := [body]; p_comment := None |} = repeat space (ind_of f n) ++ body ++ [10%N].
+Proof. exact oline_bytes. Qed.
+Print Assumptions C24_plain_line_bytes.
